@@ -217,5 +217,8 @@ def check(ctx):
     r_ids(ctx)
     from . import c07
     c07.r_reconstruct(ctx)
+    c04.group_rule(ctx, 'R14.9', r"^(<value::Destructor<'_> as miniscript::iter::TreeLike>::as_node|value::destruct::\w+(::\{closure#\d+\})*|array::(Unfolder|Combiner)::<A>::unfold)$", 'value reconstruction (what dbg! / unwrap payloads are rebuilt with): destructor tree and destructors', 8)
+    from . import c20
+    c20.r_conversions(ctx)   # the span a call is tracked and looked up under
     c07.r_uint_tables(ctx, only={'bit_width', 'from_bit_width', 'structural-type', 'as_integer:shifts'})   # destruct::as_integer shifts / widths used when a dbg! value is rebuilt
     r_map_value(ctx)
